@@ -11,6 +11,10 @@ import (
 	"go.uber.org/zap"
 )
 
+var errNewerDatabase = errors.New(
+	"database is from a newer, incompatible version of Juno; upgrade to use this database",
+)
+
 // Migration represents a migration that can be applied to the database.
 //
 // Execution Flow:
@@ -207,9 +211,7 @@ func (mr *MigrationRunner) runMigration(ctx context.Context, migrationIndex uint
 // Returns an error if current has migrations that target doesn't have, nil otherwise.
 func validateNoVersionDowngrade(current, target SchemaVersion) error {
 	if !target.Contains(current) {
-		return errors.New(
-			"database is from a newer, incompatible version of Juno; upgrade to use this database",
-		)
+		return errNewerDatabase
 	}
 
 	return nil
@@ -231,9 +233,13 @@ func validateNoOptOut(
 	flagList := make([]string, 0, optOutAttempts.Len())
 	for idx := range optOutAttempts.Iter() {
 		if int(idx) >= len(optionalMigrationFlags) {
-			// Bits beyond the current registry are unknown migrations from a newer
-			// Juno; let validateNoVersionDowngrade surface that. Iter yields in
-			// ascending order, so every remaining bit is also out of range.
+			// Bits beyond the current registry are migrations of a newer Juno that were
+			// enabled (and possibly started) on this database. They are not necessarily
+			// in CurrentVersion yet, so validateNoVersionDowngrade cannot see them.
+			// Iter yields in ascending order, so every remaining bit is also out of range.
+			if len(flagList) == 0 {
+				return errNewerDatabase
+			}
 			break
 		}
 		if flag := optionalMigrationFlags[idx]; flag != "" {
